@@ -543,6 +543,17 @@ int main(int argc, char **argv) {
       if (variant == 1) { auto sy = ad::sim_symbols(s.v); if (sy.size() != 1 || sy[0].first != "sym" || sy[0].second != 4) ok = false; }
       if (!ok) st.violation("loader", n * 4 + variant, Obj().kv("family", "loader").kv("words", n).kv("variant", variant).str());
     }
+    // large images: sizes around every power-of-two / quarter / full-memory boundary of the 200000-word memory
+    for (uint32_t n : {1000u, 16383u, 16384u, 49999u, 50000u, 50001u, 65535u, 65536u, 65537u, 100000u, 131072u, 199000u, 199999u, 200000u}) {
+      std::string f; for (int k = 0; k < 4; k++) f += (char)((n >> (8 * k)) & 0xFF);
+      f.resize(4 + (size_t)n * 4);
+      for (uint32_t w = 0; w < n; w++) { uint32_t v = w * 2654435761u + 12345; memcpy(&f[4 + (size_t)w * 4], &v, 4); }
+      simh::Sim s; s.create(0xA5); spit(ctx.scratch + "/l.bin", f);
+      for (uint32_t w = 0; w < refisa::MEM_WORDS; w++) s.v.mem[w] = ~w;   // planted after construction: load() must overwrite exactly the image words
+      int rc = run_isolated([&] { ad::sim_load(s.v, (ctx.scratch + "/l.bin").c_str()); for (uint32_t w = 0; w < refisa::MEM_WORDS; w++) { uint32_t exp = w < n ? w * 2654435761u + 12345 : ~w; if (s.v.mem[w] != exp) _exit(9); } }, 60);
+      st.add("loader_checks"); st.add("loader_large_images");
+      if (rc != 0) st.violation("loader:large-image", n, Obj().kv("family", "loader").kv("words", n).kv("what", rc == 9 ? "memory after load differs from the file's words (or words beyond the image changed)" : "load() did not return normally (effect " + std::to_string(rc) + ")").str());
+    }
     unlink((ctx.scratch + "/l.bin").c_str());
     rep.st.merge(st);
   }
